@@ -65,7 +65,9 @@ def build_tree(rng, alphabet, p_empty=0.15, maxdepth=3, wide=False):
                 members[x].requires(members[y])
         rng.shuffle(members)
         if depth == 0:
-            s = P(*members) if rng.random() < 0.3 else S("TOP", 0, *members, label="top")
+            toplabel = rng.choice(['top', 'top', rlabel(rng, alphabet), rng.choice(['graph', 'Node', 'strict', 'subgraph',
+                                                                                    'edge', 'digraph', '0', 'a b'])])
+            s = P(*members) if rng.random() < 0.3 else S("TOP", 0, *members, label=toplabel)
         else:
             nm = "S%d" % next(counter)
             lbl = rlabel(rng, alphabet) if rng.random() < 0.85 else nm
